@@ -16,6 +16,8 @@ import asyncio
 import itertools
 
 import c07_pipe
+import c07_stack
+import msglayer
 from common import compare, load_corpus, HarnessError
 
 RULE = ("(a) exhaustive: every sequence (with repetitions) of 5-6 notifications after every first "
@@ -208,6 +210,167 @@ def level_a_cases(env, R):
     return fams
 
 
+# ------------------------------------------------------------------------------ generators (b)
+
+def stack_script(rng, R, forced=None):
+    """one observation over the UDP stack: request, first response, notifications (CON/NON, any
+    order, duplicates, forged), possibly a terminating event, then more notifications"""
+    TOK = c07_stack.TOKEN
+    rel = rng.random() < 0.7
+    evs = [["S", 0, 0, 0, False, True, None, rel, 1, None, 0, 4]]
+    t = 3
+    cur = rng.choice([0, 1, 7, M23 - 2, M23, M24 - 3, M24 - 1, rng.randrange(M24)])
+    first = forced or rng.choice(["piggy", "piggy", "sep", "sep", "noobs", "rst", "err", "shutdown", "cancel"])
+    if not rel and first in ("piggy", "rst"):
+        first = "sep"
+    mid = 300
+
+    def R_(mt, code, m, obs, body, remote=0, tok=TOK):
+        return ["R", t, remote, False, mt, code, m, tok, obs, body]
+
+    if first == "piggy":
+        evs.append(R_("ACK", 69, c07_stack.REQ_MID, cur, 1))
+    elif first in ("sep", "noobs"):
+        if rel:
+            evs.append(R_("ACK", 0, c07_stack.REQ_MID, None, 0, tok="-"))
+            t += rng.choice([1, 50, 3000])
+        obs = cur if first == "sep" else None
+        evs.append(R_(rng.choice(["CON", "NON"]), 69 if first == "sep" else rng.choice([69, 132]), mid, obs, 1))
+        mid += 1
+    elif first == "rst":
+        evs.append(R_("RST", 0, c07_stack.REQ_MID, None, 0, tok="-"))
+    elif first == "err":
+        evs.append(["E", t, 0])
+    elif first == "shutdown":
+        evs.append(["X", t])
+    elif first == "cancel":
+        evs.append(["C", t, 0])
+    n = rng.randrange(1, 9)
+    term_at = rng.randrange(0, n + 1) if rng.random() < 0.7 else None
+    sent_mids = []
+    established = first in ("piggy", "sep")
+    for i in range(n + 3):
+        t += rng.choice([1, 2, 7, 1000, R - 1, R, R + 1, rng.randrange(1, 2 * R)])
+        if term_at is not None and i == term_at:
+            k = rng.choice(["4.04", "4.04", "2.05", "err", "shutdown", "oc", "cancel"])
+            if k == "oc" and not established:
+                k = "4.04"      # observation.cancel() on a finished observation is the caller's bug
+            if k in ("4.04", "2.05"):
+                evs.append(R_(rng.choice(["CON", "NON"]), 132 if k == "4.04" else 69, mid, None, 50 + i))
+                mid += 1
+            elif k == "err":
+                evs.append(["E", t, 0])
+            elif k == "shutdown":
+                evs.append(["X", t])
+            elif k == "oc":
+                evs.append(["OC", t, 0])
+            else:
+                evs.append(["C", t, 0])
+            continue
+        d = rng.choice(DELTAS) if rng.random() < 0.85 else rng.randrange(-M24, M24)
+        v = (cur + d) % M24
+        cur = v
+        r = rng.random()
+        if r < 0.1 and sent_mids:
+            m = rng.choice(sent_mids)          # a retransmitted / duplicated datagram id
+        else:
+            m = mid
+            mid += 1
+        sent_mids.append(m)
+        mt = rng.choice(["CON", "NON"])
+        if r > 0.94:
+            evs.append(R_(mt, 69, m, v, 10 + i, remote=1))          # right token, wrong endpoint
+        elif r > 0.9:
+            evs.append(R_(mt, 69, m, v, 10 + i, tok="22"))          # unknown token
+        else:
+            evs.append(R_(mt, 69, m, v, 10 + i))
+    evs.append(["A", t + 10])
+    return {"events": evs, "rules": [], "draws": [], "mid": c07_stack.REQ_MID, "token": 32}
+
+
+def stack_boundary_scripts(R):
+    """the thresholds over the wire: half-circle +-1, 128 s +-1 tick, CON and NON"""
+    TOK = c07_stack.TOKEN
+    out = []
+    for mt in ("CON", "NON"):
+        for v1 in (5, M24 - 1):
+            for d in (M23 - 1, M23, M23 + 1, 0, 1, M24 - 1):
+                for gap in (1, R - 1, R, R + 1):
+                    v2 = (v1 + d) % M24
+                    evs = [["S", 0, 0, 0, False, True, None, True, 1, None, 0, 4],
+                           ["R", 3, 0, False, "ACK", 69, c07_stack.REQ_MID, TOK, v1, 1],
+                           ["R", 3 + gap, 0, False, mt, 69, 300, TOK, v2, 2],
+                           ["R", 4 + gap, 0, False, mt, 69, 301, TOK, v1, 3],
+                           ["R", 5 + gap, 0, False, mt, 132, 302, TOK, None, 4],
+                           ["R", 6 + gap, 0, False, mt, 69, 303, TOK, (v2 + 1) % M24, 5],
+                           ["A", 20 + gap]]
+                    out.append({"events": evs, "rules": [], "draws": [], "mid": c07_stack.REQ_MID, "token": 32})
+    return out
+
+
+def strip_pipe_events(line):
+    """the pipe events of request 0 are what the runner consumes (C02 compares them); the
+    harness's own listener on the pipe misses the event during which the pipe ends"""
+    return "|".join(";".join(x for x in g.split(";") if not x.startswith(("r:0:", "f:0:")))
+                    for g in line.split("|"))
+
+
+def run_level_b(env, rep, R):
+    scripts = [c["script"] for _, c in load_corpus("C07") if "script" in c]
+    bnd = stack_boundary_scripts(R)
+    if not env.thorough:
+        bnd = bnd[::2]
+    scripts += bnd
+    for first in ("piggy", "sep", "noobs", "rst", "err", "shutdown", "cancel"):
+        scripts += [stack_script(env.rng, R, forced=first) for _ in range(env.scale(6, 100))]
+    scripts += [stack_script(env.rng, R) for _ in range(env.scale(120, 4000))]
+    lines, impl, cases = [], [], []
+    for sc in scripts:
+        res = c07_stack.run_stack(sc)
+        case = {"level": "b", "script": sc}
+        n_cb = res["impl_line"].count(":cb:")
+        n_eb = res["impl_line"].count(":eb:")
+        rep.case(case, nontrivial=(n_cb >= 1 and (n_eb >= 1 or "RST:0" in res["impl_line"])),
+                 sample_every=200)
+        rep.count("b:scripts")
+        rep.count("b:callbacks", n_cb)
+        rep.count("b:rst-sent", res["impl_line"].count("RST:0:"))
+        rep.count("b:ack-sent", res["impl_line"].count("ACK:0:"))
+        for tok in res["concrete"]:
+            k = tok.split("@")[0]
+            rep.count("b:event=" + k + (":" + tok.split(":")[3] if k == "R" else ""))
+        for e in ("NotObservable", "ObservationCancelled", "T0", "T2", "T3"):
+            if ":eb:" + e in res["impl_line"]:
+                rep.count("b:end=" + e)
+        v, key = c07_stack.oracle_stack(sc, res)
+        if v:
+            rep.oracle_fail(case, v, key="stack:" + key)
+        if res["same_tick_inputs"]:
+            rep.count("b:discarded:same-tick-inputs")
+            continue
+        lines.append(f"C07 J {R} 1 " + " ".join(res["args"]))
+        impl.append(strip_pipe_events(res["impl_line"]))
+        cases.append(case)
+    outs = env.lean(lines)
+    for case, line, m, i in zip(cases, lines, outs, impl):
+        if m == "bad-op":
+            raise HarnessError(f"driver rejected line: {line[:300]}")
+        if m == "out-of-model":
+            rep.out_of_model += 1
+            continue
+        cm, tie, starved = msglayer.canon_model_line(m)
+        if tie:
+            rep.count("b:discarded:timer-tie")
+            continue
+        if starved:
+            raise HarnessError("model ran out of time-out draws: " + line[:300])
+        rep.traces += 1
+        cm = strip_pipe_events(cm)
+        if cm != i:
+            rep.disagree({"case": case, "line": line[:2000]}, cm[:3000], i[:3000],
+                         what="observation over the UDP stack vs message layer + runner")
+
+
 # ------------------------------------------------------------------------------------ running
 
 def classify(rep, fam, h, res):
@@ -259,6 +422,7 @@ def run(env, rep):
             loop.close()
     finally:
         bench.close()
+    run_level_b(env, rep, R)
     if R != c07_pipe.RFC_RESET_TICKS:
         rep.notes.append(f"implementation's OBSERVATION_RESET_TIME is {R} ticks, RFC 7641 says 128 s")
 
@@ -275,4 +439,8 @@ def replay(env, case):
             bench.close()
         v, _ = c07_pipe.oracle_history(case["history"], res)
         return v and (v + " | observed: " + res["impl"])
+    if case.get("level") == "b":
+        res = c07_stack.run_stack(case["script"])
+        v, _ = c07_stack.oracle_stack(case["script"], res)
+        return v and (v + " | observed: " + res["impl_line"])
     raise HarnessError("unknown replay case")
